@@ -108,3 +108,64 @@ Proof.
 Qed.
 Lemma ex_round_attempts : Sched.Quiesce.only_attempts ex_round.
 Proof. intros e [H|[H|[]]]; subst; exact I. Qed.
+
+(* ------------------------------------------------------------------ a stacked chain: container c0 on host h0 *)
+From SF Require Import Sched.Stacked Sched.StackedHist.
+Definition st_outer : level := mklevel "d0" "c0" (Some plain_cap) None.
+Definition st_inner : level := mklevel "host" "h0" (Some host_cap) None.
+Definition st_locs : list level := [st_outer; st_inner].
+Definition st_rq : hw := mkhw 2 4 [("/", mkst "/" 6 [] None)].
+Definition st_reqs : list (string * hw) := [("d0/c0", st_rq); ("host/h0", st_rq)].
+Definition st_fls : list free_level :=
+  [mkfl None [("c0", Some [("/", 3)])]; mkfl (Some st_rq) [("h0", Some [("/", 1)])]].
+Definition st_history : list event :=
+  [EAttempt "/s/0" [[st_outer; st_inner]] st_reqs 1 []; ENotify "/s/0" Running []; ENotify "/s/0" Running [];
+   ENotify "/s/0" Completed st_fls; ENotify "/s/0" Completed []].
+
+Lemma st_names : forall l1 l2, In l1 st_locs -> In l2 st_locs -> lv_name l1 = lv_name l2 -> l1 = l2.
+Proof. intros l1 l2 [H1|[H1|[]]] [H2|[H2|[]]]; subst; simpl; intros H; try reflexivity; discriminate. Qed.
+Lemma wfr_host_cap : wfr host_cap.
+Proof. split; [split; [discriminate|intros d [H|[]]; subst; simpl; lia]|simpl; lia]. Qed.
+Lemma st_caps : forall l cap, In l st_locs -> lv_cap l = Some cap -> wfr cap /\ In "/" (mounts cap).
+Proof.
+  intros l cap [H|[H|[]]] Hc; subst; simpl in Hc; inversion Hc; subst.
+  - split; [apply wfr_plain_cap|left; reflexivity].
+  - split; [apply wfr_host_cap|left; reflexivity].
+Qed.
+Lemma wfr_st_rq : wfr st_rq.
+Proof. split; [split; [discriminate|intros d [H|[]]; subst; simpl; lia]|simpl; lia]. Qed.
+
+Lemma coherent_nil rs : coherent rs [].
+Proof. intros r rq []. Qed.
+
+Lemma st_conformant : conformant2 st_locs init (fun _ => []) st_history.
+Proof.
+  unfold st_history. cbn [conformant2].
+  split; [split; [reflexivity|split; [simpl; lia|split]]|].
+  { intros c [Hc|[]]. subst. split; [discriminate|]. split.
+    - intros l [Hl|[Hl|[]]]; subst; (split; [simpl; auto|vm_compute; discriminate]).
+    - simpl. constructor; [intros [H|[]]; discriminate|constructor; [intros []|constructor]]. }
+  { intros k h [Hi|[Hi|[]]]; inversion Hi; subst; apply wfr_st_rq. }
+  split; [reflexivity|].
+  remember (gstepR init (EAttempt "/s/0" [[st_outer; st_inner]] st_reqs 1 []) (fun _ => [])) as R1 eqn:ER1.
+  assert (HR1 : R1 "/s/0" = [("c0", st_rq); ("h0", st_rq)]) by (rewrite ER1; vm_compute; reflexivity).
+  clear ER1.
+  vm_compute step. cbv iota beta.
+  (* RUNNING twice: nothing released, no release trace *)
+  split; [exact I|]. split; [simpl; split; [reflexivity|split; [discriminate|]]; rewrite HR1; apply coherent_nil|].
+  cbn [gstepR]. vm_compute step. cbv iota beta.
+  split; [exact I|]. split; [simpl; split; [reflexivity|split; [discriminate|]]; rewrite HR1; apply coherent_nil|].
+  cbn [gstepR]. vm_compute step. cbv iota beta.
+  (* COMPLETED: both levels released coherently *)
+  split; [exact I|]. split.
+  { simpl. split; [discriminate|split; [discriminate|]]. rewrite HR1.
+    match goal with |- coherent ?rs ?rl => let v := eval vm_compute in rl in change rl with v end.
+    intros r rq [Hr|[Hr|[]]] Hq; subst r; cbn [rl_name rl_jh rl_u] in *;
+      (assert (rq = st_rq) by (destruct Hq as [Hq|[Hq|[]]]; inversion Hq; reflexivity)); subst rq;
+      (split; [exact (proj1 wfr_st_rq)|]); (split; [reflexivity|]); (split; [auto|]);
+      intros m; unfold size_at; cbn [total values stor map snd mount size st_rq]; destruct (String.eqb "/" m); lia. }
+  cbn [gstepR]. vm_compute step. cbv iota beta.
+  (* COMPLETED again *)
+  split; [exact I|]. split; [simpl; split; [discriminate|split; [discriminate|]]; rewrite HR1; apply coherent_nil|].
+  cbn [gstepR]. vm_compute step. cbv iota beta. exact I.
+Qed.
